@@ -167,7 +167,12 @@ def execute(desc):
             if not ok:
                 raise Violation('qr:Q_isometry', f'Q^dagger Q deviates from 1 by {err}')
             # R is upper triangular with a non-negative real diagonal in every effective (merged) block
-            Rf = Rm.fuse_legs(axes=(0, tuple(range(1, kr + 1))), mode='hard') if kr > 1 else Rm.fuse_meta_to_hard()
+            # (qr merges the NATIVE legs of the right group flatly; a meta-fused leg inside the group is therefore unfused first, otherwise the
+            # nested fusion below would order the columns of a merged block differently from the matrix that was factorised)
+            Rflat = Rm
+            while any(mf != (1,) for mf in Rflat.mfs[1:]):
+                Rflat = Rflat.unfuse_legs(axes=[i for i, mf in enumerate(Rflat.mfs) if i > 0 and mf != (1,)])
+            Rf = Rflat.fuse_legs(axes=(0, tuple(range(1, Rflat.ndim))), mode='hard') if Rflat.ndim > 2 else Rflat.fuse_meta_to_hard()
             for key in Rf.get_blocks_charge():
                 blk = np.asarray(Rf[key])
                 minDs.add(blk.shape[0])
@@ -185,11 +190,25 @@ def execute(desc):
                 raise Reject('zero_tensor')
             g2 = g2 - (0.37 * g2.norm()) * yastn.eye(g2.config, legs=g2.get_legs(), isdiag=False)
             g = g2.unfuse_legs(axes=(0, 1)) if kl > 1 else g2
-            gaxes = (tuple(range(kl)), tuple(range(kl, 2 * kl)))
+            kL = kR = kl
+            gcmp = g
+            gf = desc.get('gfuse', 0)
+            if gf == 1 and kl > 1:      # only the left group meta-fused: U must be (meta leg, new leg)
+                g = g.fuse_legs(axes=(tuple(range(kl)),) + tuple(range(kl, 2 * kl)), mode='meta')
+                gcmp = g.fuse_legs(axes=(0, tuple(range(1, kl + 1))), mode='meta')
+                kL = 1
+                labels.append('eigh:left_group_meta_fused')
+            elif gf == 2 and kl > 1:    # only the right group meta-fused: U keeps the kl legs of the left group
+                g = g.fuse_legs(axes=tuple(range(kl)) + (tuple(range(kl, 2 * kl)),), mode='meta')
+                kR = 1
+                labels.append('eigh:right_group_meta_fused')
+            gaxes = (tuple(range(kL)), tuple(range(kL, kL + kR)))
             gs = max(1.0, float(g.norm()))
-            Ua = desc['Uaxis'] % (kl + 1)
+            Ua = desc['Uaxis'] % (kL + 1)
             which = desc['which']
             S, U = g.eigh(axes=gaxes, sU=sU, Uaxis=Ua, which=which)
+            if U.ndim != kL + 1:
+                raise Violation('eigh:factor_rank', f'U.ndim = {U.ndim} for a left group of {kL} (meta-fused) legs')
             for x, nm in ((S, 'S'), (U, 'U')):
                 rr = validate_tensor(x)
                 if rr:
@@ -200,11 +219,11 @@ def execute(desc):
             if not S.isdiag or S.is_complex() or tuple(S.s) != (-sU, sU):
                 raise Violation('eigh:S_structure', f'S isdiag={S.isdiag} dtype={S.yastn_dtype} s={S.s}')
             Um = U.moveaxis(Ua, -1)
-            rec = yastn.tensordot(Um @ S, Um, axes=(kl, kl), conj=(0, 1))
-            ok, err = close(g, rec, gs)
+            rec = yastn.tensordot(Um @ S, Um, axes=(kL, kL), conj=(0, 1))
+            ok, err = close(gcmp, rec, gs)
             if not ok:
                 raise Violation('eigh:reconstruction', f'|a - U S U^dagger| = {err:.3e}')
-            gg = yastn.tensordot(Um, Um, axes=(tuple(range(kl)), tuple(range(kl))), conj=(1, 0))
+            gg = yastn.tensordot(Um, Um, axes=(tuple(range(kL)), tuple(range(kL))), conj=(1, 0))
             ok, err = is_identity(gg)
             if not ok:
                 raise Violation('eigh:U_unitary', f'U^dagger U deviates from 1 by {err}')
